@@ -20,7 +20,7 @@ from ..cfg import cfg_of
 from ..dataflow import _targets, all_def_values, depends_on
 from ..effects import Unknown, ceval, summaries
 from ..model import AnalysisError, FuncInfo, dotted, norm_stmt, unparse, walk_no_nested
-from ..norm import affine
+from ..norm import NotAffine, affine
 from .c07 import mini_run
 from .common import QUICK, calls_in, kwarg, parents_map
 
@@ -68,8 +68,8 @@ def _link_function(prog) -> tuple[FuncInfo, ast.Compare]:
         for x in walk_no_nested(fi.node):
             if isinstance(x, ast.Compare) and len(x.ops) == 1 and isinstance(x.ops[0], (ast.Lt, ast.LtE, ast.Gt, ast.GtE)):
                 sides = [_resolve1(fi.node, x.left), _resolve1(fi.node, x.comparators[0])]
-                if not any(isinstance(s_, ast.BinOp) and isinstance(s_.op, ast.Add) for s_ in sides):
-                    continue  # the link threshold is a sum of radii and angle
+                if not any(isinstance(s_, ast.BinOp) and isinstance(s_.op, (ast.Add, ast.Sub)) for s_ in sides):
+                    continue  # the link threshold is a sum of radii and angle (a difference is reported by the coefficient test)
                 if any(depends_on(fi.node, s, lambda y: isinstance(y, ast.Call) and isinstance(y.func, ast.Attribute) and y.func.attr == "distance") for s in sides) and any(
                     depends_on(fi.node, s, lambda y: isinstance(y, ast.Call) and isinstance(y.func, ast.Attribute) and y.func.attr == "get_radii") for s in sides
                 ):
@@ -202,6 +202,15 @@ def rule_r1(prog, res) -> None:
         )
         return
     res.ok("C01.R1", res.site(fi, unparse(cmp_)), f"distance < {' + '.join(sorted(atoms))}: radii vector, current patch radius and pruning angle all present with coefficient >= 1")
+    # the links of a patch are the patch ids selected BY the comparison: compress(ids, mask) — with the arguments the
+    # other way round the "ids" are the truth values of the mask (0 / 1), every patch is linked to patches 0 and 1 only
+    is_mask = lambda e: depends_on(fn, e, lambda y: y is cmp_) or any(y is cmp_ for y in ast.walk(e))  # noqa: E731
+    for x in walk_no_nested(fn):
+        if isinstance(x, ast.Call) and (dotted(x.func) or "").split(".")[-1] == "compress" and len(x.args) == 2:
+            if is_mask(x.args[0]) and not is_mask(x.args[1]):
+                res.violation("C01.R1", fi, x, f"`{unparse(x)[:60]}` selects from the link mask by the patch ids instead of selecting the patch ids by the mask: the linked 'ids' are truth values, every patch ends up linked to the patches 0 and 1 only", key_extra="link-compress-order")
+            elif is_mask(x.args[1]):
+                res.ok("C01.R1", res.site(fi, "compress(ids, mask)"), "the linked ids are the patch ids selected by the comparison")
     # the radii must cover every catalog
     cover: set[str] = set()
     recvs = []
@@ -232,6 +241,20 @@ def rule_r1(prog, res) -> None:
             res.ok("C01.R1", res.site(fi, "centre offsets"), "radii of the other catalogs are enlarged by the offset of their centres")
         else:
             res.violation("C01.R1", fi, cmp_, "radii of several catalogs are combined without accounting for the distance between their patch centres", key_extra="link-centre-offset")
+        # … and they enter with coefficient >= 1: every term of what is combined into the radii (maximum over the
+        # catalogs of radius + offset) is affine with coefficients >= 1 — a subtracted offset shrinks the threshold
+        for x in walk_no_nested(fn):
+            if isinstance(x, ast.Call) and (dotted(x.func) or "").split(".")[-1] in ("maximum", "max", "fmax") and len(x.args) >= 2 and any(isinstance(y, ast.Call) and isinstance(y.func, ast.Attribute) and y.func.attr == "get_radii" for y in ast.walk(x)):
+                for a in x.args:
+                    try:
+                        aff_a = affine(_resolve1(fn, a))
+                    except NotAffine:
+                        continue
+                    low = {k: v for k, v in aff_a.items() if k != "1" and v < 1}
+                    if low:
+                        res.violation("C01.R1", fi, x, f"a term of the combined patch radii enters with coefficient < 1 ({ {k: str(v) for k, v in low.items()} } in `{unparse(a)[:60]}`): the radius around the reference centre no longer covers the other catalog's patch, pairs across pruned patch borders are lost", key_extra="radii-enlargement-coefficient")
+                    else:
+                        res.ok("C01.R1", res.site(fi, f"radii term {unparse(a)[:30]}"), "enters the combined radii with coefficients >= 1", nontrivial=False)
 
 
 # ----------------------------------------------------------------------------- R2
@@ -843,6 +866,40 @@ def rule_r5(prog, res) -> None:
                 return False
         return True
 
+    # what "auto" means: the flag that is handed on as `auto=` is true exactly when no second catalog is given — folded
+    # for both cases from its definition in every method of the linkage class that computes one
+    n_auto = 0
+    for m in prog.find_class("PatchLinkage").methods.values():
+        handed = {unparse(k.value) for c in calls_in(m) for k in c.keywords if k.arg == "auto" and isinstance(k.value, ast.Name)}
+        a_ = m.node.args
+        optional = [q.arg for q, d in zip(a_.args[len(a_.args) - len(a_.defaults) :], a_.defaults) if isinstance(d, ast.Constant) and d.value is None and "catalog" in q.arg]
+        var = a_.vararg.arg if a_.vararg is not None and "catalog" in a_.vararg.arg else None
+        for name in sorted(handed):
+            if name in m.param_names():
+                continue
+            vals = [v for v in all_def_values(m.node, name) if v is not None]
+            if len(vals) != 1 or not (optional or var):
+                continue
+            res.touch(m)
+            table = {}
+            try:
+                for second in (False, True):
+                    env = {}
+                    for q in optional:
+                        env[q] = "SOME" if second else None
+                    if var:
+                        env[var] = ("SOME",) if second else ()
+                        env[f"len({var})"] = 1 if second else 0
+                    table[second] = bool(ceval(vals[0], env))
+            except (Unknown, TypeError):
+                raise AnalysisError(f"C01.R5: cannot fold the definition of the auto flag in {m.short} ({unparse(vals[0])[:50]})") from None
+            n_auto += 1
+            if table == {False: True, True: False}:
+                res.ok("C01.R5", res.site(m, "auto flag"), f"`{name} = {unparse(vals[0])[:40]}`: true exactly without a second catalog")
+            else:
+                res.violation("C01.R5", m, vals[0], f"the auto flag `{name} = {unparse(vals[0])[:50]}` is {table[False]} without and {table[True]} with a second catalog: an autocorrelation is counted as a cross-correlation (every unordered pair twice, no halved diagonal) or the reverse", key_extra=f"auto-flag-definition-{m.name}")
+    if n_auto < 2:
+        raise AnalysisError(f"C01.R5: only {n_auto} definitions of the auto flag found in the linkage class, minimum 2")
     cp = prog.func("PatchLinkage.count_pairs")
     paths = symx.explore(prog, cp, inline=symx.inline_private_helpers(prog, public={"get_patch_pairs", "iter_patch_id_pairs", "process_patch_pair"}))
     sets = [(p, ev) for p in paths for ev in p.calls("set_patch_pair")]
